@@ -65,10 +65,14 @@ Violated(e) ==
 Chained(e) == ~e.chain \/ l = 1 \/
               \A n \in DOMAIN e.prepar: n \in DOMAIN par => (par[n] = e.prepar[n] /\ ch[n] = e.prech[n])
 
+\* the named deviations the as-built run exercises on this call (for attributing known findings)
+MarksOf(e) == IF PreOK(e) /\ e.haslog
+              THEN Run(Begin(e.prepar, e.prech, FrameOf(e), PlanOf(e), e.strict, e.asrt)).marks ELSE {}
+
 TInit == l = 1 /\ par = <<>> /\ ch = <<>>
 TNext == /\ l <= Len(Trace)
          /\ LET e == Trace[l] IN
-              /\ PrintT(<<"J", l, e.id, Violated(e), Explained(e), Chained(e)>>)
+              /\ PrintT(<<"J", l, e.id, Violated(e), Explained(e), Chained(e), MarksOf(e)>>)
               \* re-synchronise on the logged post-state (merged into what is known so far)
               /\ par' = [n \in DOMAIN par \cup DOMAIN e.postpar |-> IF n \in DOMAIN e.postpar THEN e.postpar[n] ELSE par[n]]
               /\ ch' = [n \in DOMAIN ch \cup DOMAIN e.postch |-> IF n \in DOMAIN e.postch THEN e.postch[n] ELSE ch[n]]
